@@ -568,6 +568,26 @@ def check_modifiers(rep, facts, und):
         seen.add(cls)
         if cls == 'Arithmetic':
             rep.ok('R11.5.modifiers', 'a plain immediate becomes Arithmetic(text)')
+            # the text evaluated is the operand's tokens, all of them, in order: dropping or reordering tokens changes the expression
+            arg = v[2][0] if v[2] else None
+            params = [a.arg for a in fn.args.args]
+            tok = ('name', params[0]) if params else None
+            if arg is not None and arg[0] == 'mcall' and arg[2] == 'join' and len(arg[3]) == 1 and is_const(arg[1]) and isinstance(arg[1][1], str):
+                src = arg[3][0]
+                whole = src == tok
+                partial = src != tok and IS.contains(src, tok) and src[0] in ('slice', 'unpack', 'sub', 'comp')
+                if whole:
+                    rep.check(arg[1][1].strip() == '', 'R11.5.text', 'the expression text is the operand tokens joined by blanks',
+                              lambda node=node, arg=arg: Finding('R11.5.text', 'parse_immediate', node, 'the operand tokens are joined with {!r}: the text evaluated is not the expression that was written'.format(arg[1][1]), line=node.lineno),
+                              nontrivial=False)
+                elif partial:
+                    rep.fail(Finding('R11.5.text', 'parse_immediate', node,
+                                     'only part of the operand tokens ({}) is evaluated: tokens of the written expression are dropped (e.g. the outer parentheses of "(A + 1) * (B - 1)")'.format(show(src)[:60]),
+                                     line=node.lineno), instance='expression text')
+                else:
+                    und.append('parse_immediate: the text handed to Arithmetic is built from {} (not understood)'.format(show(src)[:60]))
+            elif arg is not None:
+                und.append('parse_immediate: the text handed to Arithmetic is {} (not understood)'.format(show(arg)[:60]))
             continue
         fields = stored_fields(facts, cls)
         inner = [v[2][i] for attr, i in fields.items() if i < len(v[2]) and facts.classes[cls].methods.get('eval') is not None
